@@ -32,7 +32,7 @@ static void* fiber_body(void* p) {
       for (int i = 0; i < (op->a > 0 ? op->a : 1); i++) fiber_yield();
     } else if (!strcmp(op->name, "work")) {
       rt_work(idx, op->a);
-    } else if (!strcmp(op->name, "nop")) {
+    } else if (!strcmp(op->name, "nop") || (!strcmp(op->name, "target") && op->a < 0)) {
     } else if (!H->do_op(idx, op)) {
       vs_violation("engine_limit", "unknown op %s", op->name);
     }
@@ -42,12 +42,22 @@ static void* fiber_body(void* p) {
   return (void*)(intptr_t)(0x1000 + idx);
 }
 
-void rt_spawn(int idx) {
+static int is_target(int idx) { return g_case.n_ops[idx] > 0 && !strcmp(g_case.ops[idx][0].name, "target"); }
+
+static fiber_t* rt_create(int idx) {
   size_t stack = (size_t)cfg_get("stack", 65536);
-  fiber_t* f = fiber_create(stack, &fiber_body, (void*)(intptr_t)idx);
+  g_expect_spawn(idx);
+  fiber_t* f = fiber_create_no_sched(stack, &fiber_body, (void*)(intptr_t)idx);
   if (!f) vs_violation("engine_limit", "fiber_create failed");
   rt_fibers[idx] = f;
-  if (cfg_get("detach", 1)) fiber_detach(f);
+  // program fibers are detached unless they are join targets (first op "target")
+  if (cfg_get("detach", 1) && !is_target(idx)) fiber_detach(f);
+  return f;
+}
+
+void rt_spawn(int idx) {
+  fiber_t* f = rt_create(idx);
+  fiber_manager_schedule(fiber_manager_get(), f);
 }
 
 void rt_main(void* arg) {
@@ -57,7 +67,9 @@ void rt_main(void* arg) {
   if (fiber_manager_init((size_t)g_case.threads) != FIBER_SUCCESS) vs_violation("engine_limit", "fiber_manager_init failed");
   if (H->setup) H->setup();
   const long defer_from = cfg_get("defer_from", MAX_FIBERS);
-  for (int i = 0; i < g_case.n_fibers && i < defer_from; i++) rt_spawn(i);
+  // create every fiber before any of them can run (handles must exist when actors start)
+  for (int i = 0; i < g_case.n_fibers && i < defer_from; i++) rt_create(i);
+  for (int i = 0; i < g_case.n_fibers && i < defer_from; i++) fiber_manager_schedule(fiber_manager_get(), rt_fibers[i]);
   // park the main fiber for good; the verdict is reached at quiescence
   fiber_manager_set_and_wait(fiber_manager_get(), &main_slot, (void*)1);
   vs_violation("engine_limit", "main fiber resumed");
